@@ -321,9 +321,9 @@ def conn_window_work(arg):
                 stack.append(hist + (o,))
     # datagram window: sequences of datagram-number offsets, message numbers always fresh
     DOFFS = [1, 2, 31, 32, 33, 40, -1, -2, -31, -32, -33, -40, 0]
-    stack = [()]
+    stack = [((), False), ((), True)]
     while stack:
-        hist = stack.pop()
+        hist, damaged = stack.pop()
         nodes += 1
         conn = fresh()
         recv = set()
@@ -347,6 +347,21 @@ def conn_window_work(arg):
             dropped0 = conn.stats.dropped
             try:
                 d = dgram(p, mseq, mseq)
+                if damaged:
+                    # the same datagram arrives first with one bit of its tag flipped: it was NOT received, the windows and
+                    # the verdict on the intact copy that follows must be what they would have been without it
+                    bad = d[:-1] + bytes([d[-1] ^ 0x01])
+                    before = len(conn.incoming_messages)
+                    win0 = (int(conn.bitfield_pkt.current_seqnum), conn.bitfield_pkt.bits)
+                    conn._recv_datagram(PacketHeader.from_bytes(True, bad), bad)
+                    total += 1
+                    if len(conn.incoming_messages) > before or (int(conn.bitfield_pkt.current_seqnum), conn.bitfield_pkt.bits) != win0:
+                        flag("a datagram that fails authentication is recorded in the receive window", seq_hist + ["(damaged copy)"],
+                             "datagram numbers %r: window (head, bits) %r -> %r after a damaged copy of the last one" % (
+                                 seq_hist, win0, (int(conn.bitfield_pkt.current_seqnum), conn.bitfield_pkt.bits)))
+                        ok = False
+                        break
+                    dropped0 = conn.stats.dropped
                 before = len(conn.incoming_messages)
                 conn._recv_datagram(PacketHeader.from_bytes(True, d), d)
             except Exception as e:
@@ -368,7 +383,7 @@ def conn_window_work(arg):
                 recv = {x for x in recv if 0 <= ring_diff(cur, x) <= 32}
         if ok and len(hist) < depth:
             for o in DOFFS:
-                stack.append(hist + (o,))
+                stack.append((hist + (o,), damaged))
     return nodes, total, viols
 
 
